@@ -14,6 +14,7 @@ import traceback
 
 VERIF = os.path.dirname(os.path.dirname(os.path.abspath(__file__)))
 sys.path.insert(0, VERIF)
+OUT = os.environ.get("VERIF_OUT", VERIF)      # where evidence/ and replays/ are written (self-tests redirect it)
 
 from pyvc import driver  # noqa: E402
 from pyvc.source import REPO  # noqa: E402
@@ -155,7 +156,7 @@ def run_check(prop, P, args):
     lines = []
     exit_code = 0
     violations = 0
-    os.makedirs(os.path.join(VERIF, "replays"), exist_ok=True)
+    os.makedirs(os.path.join(OUT, "replays"), exist_ok=True)
 
     def matches_known(kind, name, signature):
         for k in known_open:
@@ -205,7 +206,7 @@ def run_check(prop, P, args):
     if exit_code != 3:
         if bfailure is not None:
             # a concrete failing input on the real code: a violation, whatever the solver said
-            path = os.path.join(VERIF, "replays", "%s_%d.json" % (prop, int(time.time())))
+            path = os.path.join(OUT, "replays", "%s_%d.json" % (prop, int(time.time())))
             rec = {"property": prop, "failed_obligations": [
                 {"name": o["name"], "status": o["status"], "reason": o.get("reason"), "line": o["line"],
                  "source": o["text"], "model": o.get("model")} for o in unexplained],
@@ -225,7 +226,7 @@ def run_check(prop, P, args):
             new_names = [o for o in unexplained if o["name"] not in set(base.get("discharged", []))
                          and (o["hash_changed"] or changed_files)]
             if real or new_names:
-                path = os.path.join(VERIF, "replays", "%s_%d.json" % (prop, int(time.time())))
+                path = os.path.join(OUT, "replays", "%s_%d.json" % (prop, int(time.time())))
                 rec = {"property": prop, "failed_obligations": [
                     {"name": o["name"], "status": o["status"], "reason": o.get("reason"), "line": o["line"],
                      "source": o["text"], "model": o.get("model"), "function": o["function"]} for o in unexplained],
@@ -292,8 +293,8 @@ def run_check(prop, P, args):
     ev = {"property_id": prop, "tier": tier, "seed": seed, "level": level_out, "coverage": cov,
           "assumptions": P.get("trusted", []) + P.get("assumptions", []), "wall_s": round(wall, 2),
           "violations": violations}
-    os.makedirs(os.path.join(VERIF, "evidence"), exist_ok=True)
-    with open(os.path.join(VERIF, "evidence", "%s.json" % prop), "w") as f:
+    os.makedirs(os.path.join(OUT, "evidence"), exist_ok=True)
+    with open(os.path.join(OUT, "evidence", "%s.json" % prop), "w") as f:
         json.dump(ev, f, indent=1)
     print("%s: %d/%d obligations discharged over %d functions/lemmas in %.1fs (solver %.1fs); bounded channel: %s" % (
         prop, discharged, obligations, len(results), wall, solver_seconds,
